@@ -212,7 +212,9 @@ def impl_call(fn):
     """run an implementation call; ('ok', value) or ('err', class)"""
     from common import time_limit
     try:
-        with time_limit(20):
+        with time_limit(180):
             return ("ok", fn())
+    except TimeoutError as e:  # a slow box is an infrastructure problem, never a violation
+        raise Infra(f"implementation call timed out: {e}")
     except Exception as e:  # noqa: BLE001
         return ("err", err_class(e), f"{type(e).__name__}: {str(e)[:160]}")
